@@ -27,6 +27,10 @@ PLAN = {
     "C10-C": ["C10"], "C10-D": ["C10"], "C11-C": ["C11"], "C11-D": ["C11"], "C14-C": ["C14", "C08"],
     "C14-D": ["C14", "C13"], "C16-C": ["C16"], "C16-D": ["C16"], "C17-C": ["C17", "C07"], "C17-D": ["C17", "C15"],
     "C18-C": ["C18", "C15", "C05"], "C18-D": ["C18", "C02"],
+    # fourth batch
+    "C08-C": ["C08"], "C08-D": ["C08"], "C12-C": ["C12", "C02"], "C12-D": ["C12"], "C19-C": ["C19"], "C19-D": ["C19"],
+    "C05-E": ["C05", "C06"], "C05-F": ["C05", "C06"], "C06-E": ["C06", "C05"], "C06-F": ["C06"], "C07-E": ["C07"],
+    "C07-F": ["C07", "C15"], "C15-E": ["C15"], "C15-F": ["C15"], "C02-E": ["C02", "C04"], "C02-F": ["C02", "C04"],
 }
 
 
